@@ -18,7 +18,6 @@ structure Ctx (ds : DataSource) (t : Text) (n pl : Nat) (chars : List Spec.Ch) :
   hlen : chars.length = n
   hB : NoInnerB (chars.map (·.cls))
   hbrk : chars.map (·.brk) = t.segs.map (fun s => ds.brk s.cp)
-  hbc : ∀ c ∈ chars, c.brk.isSome = true → brkClassOK c.cls
 
 section
 variable {ds : DataSource} {t : Text} {n pl : Nat} {chars : List Spec.Ch}
@@ -81,19 +80,6 @@ theorem model_fold (hweak : WeakInv ds) (c : Ctx ds t n pl chars) :
           intro i hi hk
           rw [hag i hi]
           exact hovX i (hilt i hi) hk)
-        (by
-          intro i hi hk hb
-          have hi' := hilt i hi
-          rw [← brkAt_unit ds c.hu chars c.hbrk i hi'] at hb
-          have hmem : chars.getD i default ∈ chars := by
-            rw [List.getD_eq_getElem?_getD, List.getElem?_eq_getElem (by rw [c.hlen]; exact hi')]
-            exact List.getElem_mem _
-          have := c.hbc _ hmem hb
-          have hcg : cget cls i = (chars.getD i default).cls := by
-            simp only [cget, cls, List.getD_eq_getElem?_getD, List.getElem?_map]
-            rw [List.getElem?_eq_getElem (by rw [c.hlen]; exact hi')]
-            rfl
-          rw [hcg]; exact this)
       refine ⟨out, o1, by rw [o2, hP, hpl'], o3, ?_⟩
       show (keptOf cls s).map (cget out) = _
       rw [o4]
